@@ -34,6 +34,45 @@ CONFIG = {
     },
 }
 
+CONFIG['C18'] = {'assumptions': ['material identity is observed by DER equality of leaf certificates, public-key equality of the attached private key, and '
+                 'RawSubject of pool entries (CertPool.Subjects)',
+                 "callbacks and session caches are identified by a tag the harness can read back (the callback's error value, the cache's dynamic "
+                 'type)',
+                 "TLSClientAuth adding LoadedCA to the caller's LoadedCAPool (documented: the pool must not be reused) is not part of the property; "
+                 'every case builds fresh pools'],
+ 'exhaustive': 'sub-lattices L1, L2 (stream A) and L3 (stream H) of the rule are enumerated completely on every run; the full product (5.6M option '
+               'combinations) is sampled',
+ 'go_entry': 'client.TLSClientAuth, client.TLSTransport, client.TLSClient (+ one GET through TLSClient against an in-process TLS server)',
+ 'model_fn': 'tlsAuth / tlsTransport / tlsClient / hsRun',
+ 'partial': [],
+ 'quick_n': 6000,
+ 'rule': 'option lattice with in-process generated material (RSA, EC P-256/P-384, ed25519 keys; 6 client certificates; 4 CAs). Slots: Certificate '
+         'file {absent, unreadable, no-PEM, RSA, EC, ed25519} x LoadedCertificate {nil, empty Raw, 5 certs} x Key file {absent, unreadable, no-PEM, '
+         '4 keys} x LoadedKey {nil, ed25519, 2 RSA, typed-nil RSA, zero RSA, 2 EC, typed-nil EC, unmarshalable curve} x CA file {absent, unreadable, '
+         'no-PEM, 1 root, 2 roots} x LoadedCA {nil, 2 roots} x LoadedCAPool {nil, empty, 1 root, 2 roots} x ServerName x InsecureSkipVerify x '
+         'VerifyPeerCertificate x SessionTicketsDisabled x ClientSessionCache. EXHAUSTIVE sub-lattices on every run (stream A, TLSClientAuth): L1 = '
+         'whole identity lattice (2940) x 12 root combinations covering every branch of the RootCAs switch (thorough: all 60) x server name x '
+         'insecure (callback/session flags drawn per case); L2 = whole root lattice (60) x all 32 flag combinations x 12 identity combinations '
+         'covering every branch of the client-certificate block. L3 (stream H, real handshakes) = insecure x server name {none, matching, other} x 7 '
+         'root combinations (system, right root via LoadedCA / CA file / pool, wrong root, LoadedCA overriding a right CA file, empty CA file) x '
+         'server max version x callback x 3 identities x dialled host. Random draws from the full lattice go through TLSTransport (T), TLSClient '
+         '(C), TLSClientAuth (A) and real handshakes (H: server CA x server DNS name x server max version TLS1.1/1.2/1.3 x dialled host). A case is '
+         'trivial only when every option is unset.',
+ 'search_s': 40,
+ 'thorough_n': 40000,
+ 'thorough_seeds': 2,
+ 'trusted_base': ['reading of the property text into the Lean `Spec` (human step, RtVerif/Model/<id>.lean)',
+                  'correspondence check (differential: Go harness /verif/harness -> protocol lines -> compiled Lean driver rtdriver evaluating Model '
+                  'and Spec); coverage bounded by the generators',
+                  "factgen (go/ast extraction of constants/tables into RtVerif/Gen/Facts.lean) and the driver's line parser",
+                  "crypto/tls + crypto/x509 material handling (PEM parsing, key marshalling, tls.X509KeyPair's key/certificate match, "
+                  'CertPool.AddCert/AppendCertsFromPEM) is abstracted to slot states {absent, unreadable, garbage, ok(cert,key)}; validated '
+                  'differentially, not proved',
+                  'effective minimum version: crypto/tls treats MinVersion=0 on a client as TLS 1.2 (Go >= 1.18); exercised by stream H with a '
+                  'TLS1.1-only server',
+                  'stream H (handshake) uses a hand model of crypto/tls verification (version negotiation, chain + name check, callback, client '
+                  'certificate selection): support, not proof; assumes the generated CAs are not in the system pool']}
+
 # properties not claimed (with the reason) and hook commits in /repo (none so far: no hooks needed)
 NOT_APPLICABLE = {}
 HOOK_COMMITS = []
